@@ -14,7 +14,7 @@ from ..gfi.all import ALL
 from ..gfi.common import run_for
 from ..program import AnalysisError
 from ..rules import Arms, is_call, is_mcall
-from ..terms import C, Evaluator, G, P, is_t, mk_proj, show
+from ..terms import C, Evaluator, G, P, is_t, mk_proj, show, subterms
 from .C38 import request_combinators
 
 INC = "core/compiler/interpreters/incremental.py"
@@ -44,16 +44,25 @@ def propagate(chk, prog):
     prim = ("call", ("attr", DIFFG, "tree_primal"), (A,), ())
     bind = ("call", ("attr", P("prim"), "bind"), (("star", prim),), (("**", P("_params")),))
     want = ("phi", chkt, ("call", ("attr", DIFFG, "no_change"), (bind,), ()), ("call", ("attr", DIFFG, "unknown_change"), (bind,), ()))
-    chk.require(r.ret == want, "TAG-PROPAGATE", "default_propagation_rule", "NoChange iff all inputs NoChange",
+    # decided per outcome of the static check, in either spelling of the constant tagging (Diff.no_change(out) / tree_map(v -> Diff(v, NoChange), out))
+    from ..terms import renorm, resolve
+    okdp = True
+    for pol_, tagm, tagc in ((True, "no_change", "NoChange"), (False, "unknown_change", "UnknownChange")):
+        leaf_ = renorm(resolve(r.ret, chkt, pol_))
+        okdp = okdp and (leaf_ == ("call", ("attr", DIFFG, tagm), (bind,), ())
+                         or (is_t(leaf_, "treemap") and leaf_[2] == (bind,) and is_t(leaf_[1], "ctor") and leaf_[1][1] == "Diff" and leaf_[1][2][:1] == (("leaf", bind),) and len(leaf_[1][2]) == 2
+                             and is_t(leaf_[1][2][1], "global") and leaf_[1][2][1][1].endswith("." + tagc)))
+    okdp = okdp and any(is_t(x, "phi") and x[1] == chkt for x in subterms(r.ret))
+    chk.require(okdp, "TAG-PROPAGATE", "default_propagation_rule", "NoChange iff all inputs NoChange",
                 derived=show(r.ret)[:400], expected="check = static_check_no_change(ALL args) computed on the Diff-tagged args; bind on the primals; no_change(out) if check else unknown_change(out)", where=where)
     D = prog.cls("Diff", INC)
     r = ev.eval_fn(D.methods["static_check_no_change"], D.module, D)
     t = r.ret
-    ok = is_call(t, "all") and len(t[2]) == 1 and is_call(t[2][0], "map")
+    # all(map(f, leaves)) and all(f(x) for x in leaves) are one term: the family of f over the leaves
+    ok = is_call(t, "all") and len(t[2]) == 1 and is_t(t[2][0], "fam")
     if ok:
-        lam, leaves = t[2][0][2]
-        rr = ev.apply(lam, [P("$leaf")], module=D.module)
-        ok = is_t(rr, "isinst") and rr[1] == P("$leaf") and rr[2] == "_NoChange" and is_call(leaves, "tree_leaves") and is_call(leaves[2][0], "tree_tangent") and leaves[2][0][2] == (P("v"),)
+        leaves, rr = t[2][0][1], t[2][0][2]
+        ok = is_t(rr, "isinst") and rr[1] == ("elem", leaves) and rr[2] == "_NoChange" and is_call(leaves, "tree_leaves") and is_call(leaves[2][0], "tree_tangent") and leaves[2][0][2] == (P("v"),)
     chk.require(ok, "TAG-PROPAGATE", "Diff.static_check_no_change", "universal test over every tangent leaf", derived=show(t)[:300], expected="all(isinstance(leaf, _NoChange) for leaf in leaves(tree_tangent(v)))", where=f"{D.module.rel}:{D.methods['static_check_no_change'].lineno}")
     # tree_tangent of a non-Diff leaf is NoChange; tree_primal is the identity on it (used by the normalisation)
     for meth, want_diff, want_plain in (("tree_primal", "get_primal", "v"), ("tree_tangent", "get_tangent", "NoChange")):
